@@ -431,7 +431,58 @@ func (w *c07World) writeRole(ro *c07Role, ns string) error {
 	if !vOK(resp, err) {
 		return fmt.Errorf("role write refused: %s", vErrStr(resp, err))
 	}
+	// the role's configuration, for the reference, is what its read endpoint shows
+	rr, re := w.v.Do(vReq{Op: logical.ReadOperation, Path: "auth/token/roles/" + ro.Name, Token: w.v.Root, NS: ns})
+	if !vOK(rr, re) || rr == nil || rr.Data == nil {
+		return fmt.Errorf("role read failed: %s", vErrStr(rr, re))
+	}
+	ro.Shown = &c07RoleLists{Allowed: c07Strs(rr.Data["allowed_policies"]), Disallowed: c07Strs(rr.Data["disallowed_policies"]),
+		AllowedGlob: c07Strs(rr.Data["allowed_policies_glob"]), DisallowedGlob: c07Strs(rr.Data["disallowed_policies_glob"])}
 	return nil
+}
+
+// c07RoleTags describes which special entries the WRITTEN lists of a role contain (evidence keys).
+func c07RoleTags(ro *c07Role) []string {
+	var tags []string
+	for _, l := range []struct {
+		name string
+		raw  []string
+	}{{"deny", ro.Disallowed}, {"denyglob", ro.DisallowedGlob}, {"allow", ro.Allowed}, {"allowglob", ro.AllowedGlob}} {
+		if len(l.raw) == 0 {
+			continue
+		}
+		norm := c07Norm(l.raw)
+		nonEmpty, variant := 0, false
+		for _, x := range l.raw {
+			t := strings.ToLower(strings.TrimSpace(x))
+			if t == "" {
+				continue
+			}
+			nonEmpty++
+			if t != x {
+				variant = true
+			}
+		}
+		ordinary := 0
+		for _, x := range norm {
+			if x != "root" && x != "default" && x != "response-wrapping" {
+				ordinary++
+			}
+		}
+		add := func(cond bool, what string) {
+			if cond {
+				tags = append(tags, l.name+"-has-"+what)
+			}
+		}
+		add(c07Has(norm, "root") && ordinary > 0, "root-and-ordinary-entries")
+		add(c07Has(norm, "root") && ordinary == 0, "root-only")
+		add(c07Has(norm, "default"), "default")
+		add(c07Has(norm, "response-wrapping"), "non-assignable")
+		add(nonEmpty < len(l.raw), "empty-name")
+		add(nonEmpty > len(norm), "duplicate")
+		add(variant, "case-or-padding-variant")
+	}
+	return tags
 }
 
 // ---------------------------------------------------------------- one create case
@@ -512,6 +563,35 @@ func (w *c07World) run(r *kit.Result, id string, ps c07ParentSpec, q c07Req, ren
 		defer func() {
 			_, _ = v.Do(vReq{Op: logical.DeleteOperation, Path: "auth/token/roles/" + q.Role.Name, Token: v.Root, NS: q.NS})
 		}()
+		// the read endpoint may not show an allowed entry nobody configured, nor lose a disallowed one
+		sh := q.Role.Shown
+		for _, chk := range []struct {
+			class, what string
+			sub, super  []string
+		}{
+			{"C07-role-shows-allowed-entry-never-configured", "allowed_policies", c07Norm(sh.Allowed), c07Norm(q.Role.Allowed)},
+			{"C07-role-shows-allowed-entry-never-configured", "allowed_policies_glob", c07Norm(sh.AllowedGlob), c07Norm(q.Role.AllowedGlob)},
+			{"C07-role-drops-configured-disallowed-entry", "disallowed_policies", c07Norm(q.Role.Disallowed), c07Norm(sh.Disallowed)},
+			{"C07-role-drops-configured-disallowed-entry", "disallowed_policies_glob", c07Norm(q.Role.DisallowedGlob), c07Norm(sh.DisallowedGlob)},
+		} {
+			for _, x := range chk.sub {
+				if !c07Has(chk.super, x) {
+					r.Violate(chk.class, id, fmt.Sprintf("%s: entry %q; written %q, read back %q", chk.what, x, map[string][]string{"allowed_policies": q.Role.Allowed, "allowed_policies_glob": q.Role.AllowedGlob, "disallowed_policies": q.Role.Disallowed, "disallowed_policies_glob": q.Role.DisallowedGlob}[chk.what], map[string][]string{"allowed_policies": sh.Allowed, "allowed_policies_glob": sh.AllowedGlob, "disallowed_policies": sh.Disallowed, "disallowed_policies_glob": sh.DisallowedGlob}[chk.what]), map[string]any{"role": q.Role})
+					break
+				}
+			}
+		}
+		r.Count("role_read_backs", 1)
+		if len(c07Norm(sh.Allowed)) < len(c07Norm(q.Role.Allowed)) {
+			r.Count("role_allowed_list_narrower_when_read_back", 1)
+		}
+	}
+	var roleTags []string
+	if q.Role != nil {
+		roleTags = c07RoleTags(q.Role)
+		for _, tg := range roleTags {
+			r.Count("roles:"+tg, 1)
+		}
 	}
 	c := &c07Case{ID: id, Parent: parent, Req: q, CrossNS: q.NS != parent.NS, MountMax: w.mountMax[q.NS]}
 	c.Update, c.Sudo = c07RefCaps(parent.NS, parent.allPolicies(), q.NS+q.path())
@@ -601,6 +681,11 @@ func (w *c07World) run(r *kit.Result, id string, ps c07ParentSpec, q c07Req, ren
 			r.Count("refused_unentitled_ask:"+a, 1)
 		}
 		for _, a := range asks {
+			if a == "role-disallowed-policy" || a == "policy-outside-role-lists" {
+				for _, tg := range roleTags {
+					r.Count("refused:"+a+":role:"+tg, 1)
+				}
+			}
 			switch {
 			case a == "non-expiring-root-from-expiring-root" && len(asks) == 1:
 				r.Count("expiring_root_parent_refused_non_expiring_root_child:"+rootShape, 1)
@@ -630,6 +715,9 @@ func (w *c07World) run(r *kit.Result, id string, ps c07ParentSpec, q c07Req, ren
 	}
 	r.Count("created", 1)
 	r.Count("created:"+capName+":"+q.Endpoint, 1)
+	for _, tg := range roleTags {
+		r.Count("created_through_role:"+tg, 1)
+	}
 	if !c.Update {
 		r.Count("created_although_reference_says_no_update_capability", 1)
 		r.Note("case %s: reference ACL says the parent %v cannot update %s but the request succeeded", id, parent.allPolicies(), q.NS+q.path())
@@ -752,7 +840,7 @@ func (w *c07World) run(r *kit.Result, id string, ps c07ParentSpec, q c07Req, ren
 	case beyond && q.Role != nil && q.Role.hasAllowLists():
 		r.Count("policy_beyond_parent_via_role_allow_lists", 1)
 		for _, x := range pols {
-			if !c07Has(c07Norm(q.Role.Allowed), x) && c07GlobAny(q.Role.AllowedGlob, x) {
+			if !c07Has(q.Role.allowedList(), x) && c07GlobAny(q.Role.allowedGlobs(), x) {
 				r.Count("policy_via_role_allow_glob", 1)
 				break
 			}
@@ -878,6 +966,60 @@ func c07Mangle(rng *kit.Rand, p string) string {
 	return p
 }
 
+// c07Spice inserts special names at random positions of a role list: root, default, the non-assignable policy,
+// a name that looks reserved, empty names, duplicates and case / padding variants of the entries already there.
+func c07Spice(rng *kit.Rand, list []string) []string {
+	if len(list) == 0 || !rng.Chance(2, 5) {
+		return list
+	}
+	out := append([]string{}, list...)
+	for k := 1 + rng.Intn(2); k > 0; k-- {
+		var sp string
+		switch rng.Intn(10) {
+		case 0, 1, 2:
+			sp = kit.Pick(rng, []string{"root", "root", " ROOT", "Root "})
+		case 3:
+			sp = kit.Pick(rng, []string{"default", " Default"})
+		case 4:
+			sp = kit.Pick(rng, []string{"response-wrapping", "Response-Wrapping "})
+		case 5:
+			sp = "control-group"
+		case 6:
+			sp = kit.Pick(rng, []string{"", " "})
+		case 7:
+			sp = kit.Pick(rng, out)
+		default:
+			if sp = kit.Pick(rng, out); strings.TrimSpace(sp) != "" {
+				sp = c07Mangle(rng, sp)
+			}
+		}
+		at := rng.Intn(len(out) + 1)
+		out = append(out[:at], append([]string{sp}, out[at:]...)...)
+	}
+	return out
+}
+
+// c07RolePool: names worth asking for through a role: the ordinary entries of its lists and names its globs match.
+func c07RolePool(ro *c07Role) []string {
+	var pool []string
+	for _, x := range c07Norm(append(append([]string{}, ro.Allowed...), ro.Disallowed...)) {
+		pool = append(pool, x)
+	}
+	for _, g := range c07Norm(append(append([]string{}, ro.AllowedGlob...), ro.DisallowedGlob...)) {
+		if !strings.Contains(g, "*") {
+			pool = append(pool, g)
+			continue
+		}
+		for _, x := range c07Content {
+			if c07Glob(g, x) {
+				pool = append(pool, x)
+			}
+		}
+		pool = append(pool, strings.ReplaceAll(g, "*", "x"))
+	}
+	return pool
+}
+
 func c07RandRole(rng *kit.Rand, name string) *c07Role {
 	ro := &c07Role{Name: name, Renewable: rng.Chance(3, 4)}
 	uni := append(append([]string{}, c07Content...), "default", "tc", "ghost")
@@ -899,6 +1041,11 @@ func c07RandRole(rng *kit.Rand, name string) *c07Role {
 	if rng.Chance(1, 4) {
 		ro.DisallowedGlob = []string{kit.Pick(rng, []string{"dev-d*", "ops-*", "def*", "*-app", "b*"})}
 	}
+	if rng.Chance(1, 6) && len(ro.DisallowedGlob) > 0 {
+		ro.DisallowedGlob = append(ro.DisallowedGlob, kit.Pick(rng, []string{"dev-d*", "ops-*", "*-app", "b*", "c"}))
+	}
+	ro.Allowed, ro.Disallowed = c07Spice(rng, ro.Allowed), c07Spice(rng, ro.Disallowed)
+	ro.AllowedGlob, ro.DisallowedGlob = c07Spice(rng, ro.AllowedGlob), c07Spice(rng, ro.DisallowedGlob)
 	ro.Orphan = rng.Chance(1, 3)
 	if rng.Chance(1, 4) {
 		ro.Period = kit.Pick(rng, []string{"20m", "30h"})
@@ -949,6 +1096,21 @@ func c07RandPolicies(rng *kit.Rand, parentPols []string, ro *c07Role, ident []st
 			return nil
 		}
 		return out
+	}
+	if ro != nil && rng.Chance(1, 4) {
+		if pool := c07RolePool(ro); len(pool) > 0 {
+			out := []string{kit.Pick(rng, pool)}
+			if rng.Chance(1, 3) {
+				out = append(out, kit.Pick(rng, pool))
+			}
+			if rng.Chance(1, 3) && len(parentPols) > 0 {
+				out = append(out, kit.Pick(rng, parentPols))
+			}
+			if rng.Chance(1, 5) {
+				out[0] = c07Mangle(rng, out[0])
+			}
+			return out
+		}
 	}
 	sub := func() []string {
 		s := c07Sub(rng, parentPols, 1, 2)
@@ -1234,7 +1396,7 @@ func c07Shard(prefix string) int {
 	return shard
 }
 
-const c07Rule0 = "a case = one parent token made for the case (kind root/expiring root/service/batch/use-limited/login/login with entity/bound to an entity made for the case - through a login alias or a token role with entity_alias - whose entity and group carry policies the token has, policies it lacks and now and then sudo on a create path; namespace; access policy set with or without sudo on the called path; content policies; default or not) x one request to auth/token/create | create-orphan | create/<role> (role written for the case) in the same or the child namespace; every returned token is judged on the response auth block, on lookup of the stored token, on lookup under a caller-chosen id and after a renewal attempt against the doc-derived invariants (policy bound against the parent TOKEN's own policies incl. role lists/globs/sudo (token- or identity-derived)/cross-namespace; for entity-bound parents also on a lookup after every policy was taken off the entity and its group; root, non-assignable, default rule, orphan, period, id, type, role CIDRs/uses, lifetime vs explicit and mount max, entity, namespace); distinct non-trivial = distinct (capability, endpoint, role shape, cross-namespace, set of unentitled asks, flags, outcome)"
+const c07Rule0 = "a case = one parent token made for the case (kind root/expiring root/service/batch/use-limited/login/login with entity/bound to an entity made for the case - through a login alias or a token role with entity_alias - whose entity and group carry policies the token has, policies it lacks and now and then sudo on a create path; namespace; access policy set with or without sudo on the called path; content policies; default or not) x one request to auth/token/create | create-orphan | create/<role> (role written for the case and read back; random roles get special names - root, default, response-wrapping, control-group, empty, duplicates, case/padding variants - spliced into their four policy lists at random positions) in the same or the child namespace; every returned token is judged on the response auth block, on lookup of the stored token, on lookup under a caller-chosen id and after a renewal attempt against the doc-derived invariants (policy bound against the parent TOKEN's own policies incl. role lists/globs/sudo (token- or identity-derived)/cross-namespace; for entity-bound parents also on a lookup after every policy was taken off the entity and its group; root, non-assignable, default rule, orphan, period, id, type, role CIDRs/uses, lifetime vs explicit and mount max, entity, namespace); distinct non-trivial = distinct (capability, endpoint, role shape, cross-namespace, set of unentitled asks, flags, outcome)"
 
 func c07Requires(r *kit.Result, scale int64) {
 	r.Require("cross_namespace_caller_whose_policy_namesakes_grant_sudo", 10*scale)
@@ -1280,6 +1442,13 @@ func c07Requires(r *kit.Result, scale int64) {
 		"expiring_root_parent_refused_non_expiring_root_child:explicit-max":        3,
 		"expiring_root_parent_refused_non_expiring_root_child:period+explicit-max": 3,
 		"non_expiring_root_child_of_parent:non-expiring":                           10,
+		// role lists containing special names next to ordinary entries
+		"role_read_backs": 300, "roles:deny-has-root-and-ordinary-entries": 15, "roles:denyglob-has-root-and-ordinary-entries": 12,
+		"roles:allow-has-root-and-ordinary-entries": 20, "roles:deny-has-default": 20, "roles:deny-has-case-or-padding-variant": 20,
+		"refused:role-disallowed-policy:role:deny-has-root-and-ordinary-entries":     6,
+		"refused:role-disallowed-policy:role:denyglob-has-root-and-ordinary-entries": 6,
+		"refused:role-disallowed-policy:role:deny-has-case-or-padding-variant":       8,
+		"refused:policy-outside-role-lists:role:allow-has-root-and-ordinary-entries": 8,
 	} {
 		r.Require(k, min*scale)
 	}
@@ -1315,7 +1484,7 @@ func TestVerif_C07_Random(t *testing.T) {
 func TestVerif_C07_Lattice(t *testing.T) {
 	seed := kit.Seed(7)
 	shard := c07Shard("lat")
-	r := kit.NewResult(t, "c07-lattice", seed, "full product capability{none, sudo on the called path, sudo only elsewhere, (cross-namespace) sudo only through a same-named policy of the other namespace, root} x namespaces{root, ns1, root->ns1} x endpoint{create, create-orphan, role without lists, role allowed, role allowed+glob, role disallowed, role disallowed glob, role allowed+disallowed, role allowing root, role with token_no_default_policy} x requested policies{none, subset, superset, all of the parent plus one, default, subset plus default, default in another spelling, all of the parent plus default, root, root in upper case, response-wrapping (two spellings), glob-matched, role-disallowed} x no_default_policy x parent has default; capability x namespaces x endpoint{create, create-orphan, plain role, orphan role, period role, explicit-max role, default-batch role with explicit max} (with a renewal attempt) x flag{no_parent, period, id, batch type, explicit max, huge ttl, combinations}; entity-bound parents {root, ns1} x binding{login alias, role entity_alias} x capability{none, sudo by token policy, sudo only by entity policy, sudo only by group policy} x endpoint{create, create-orphan, role without lists, role allowed, role allowed+glob, role disallowed, role with allowed_entity_aliases + entity_alias, orphan role} x requested{none, token subset, entity-only policy, group-only policy, mixtures, upper case, all identity-only, all of the parent plus identity-only} x no_default_policy, plus root->ns1 and allow-list+alias roles; root parents of every lifetime shape {initial root, non-expiring child of it, ttl, period, period+explicit max, explicit max only, ttl+explicit max, ttl+period, use-limited, period above the mount max} x endpoint{create, create-orphan, role without lists, role allowing root, orphan role, period role, explicit-max role} x child policies{inherit, root, a} x lifetime stated{nothing, ttl, period, explicit max, explicit max 0, ttl+explicit, no_parent, period+explicit}; batch and use-limited parents x capability x namespaces x endpoints; "+c07Rule0)
+	r := kit.NewResult(t, "c07-lattice", seed, "full product capability{none, sudo on the called path, sudo only elsewhere, (cross-namespace) sudo only through a same-named policy of the other namespace, root} x namespaces{root, ns1, root->ns1} x endpoint{create, create-orphan, role without lists, role allowed, role allowed+glob, role disallowed, role disallowed glob, role allowed+disallowed, role allowing root, role with token_no_default_policy} x requested policies{none, subset, superset, all of the parent plus one, default, subset plus default, default in another spelling, all of the parent plus default, root, root in upper case, response-wrapping (two spellings), glob-matched, role-disallowed} x no_default_policy x parent has default; capability x namespaces x endpoint{create, create-orphan, plain role, orphan role, period role, explicit-max role, default-batch role with explicit max} (with a renewal attempt) x flag{no_parent, period, id, batch type, explicit max, huge ttl, combinations}; entity-bound parents {root, ns1} x binding{login alias, role entity_alias} x capability{none, sudo by token policy, sudo only by entity policy, sudo only by group policy} x endpoint{create, create-orphan, role without lists, role allowed, role allowed+glob, role disallowed, role with allowed_entity_aliases + entity_alias, orphan role} x requested{none, token subset, entity-only policy, group-only policy, mixtures, upper case, all identity-only, all of the parent plus identity-only} x no_default_policy, plus root->ns1 and allow-list+alias roles; role lists {disallowed, disallowed glob, allowed, allowed glob, allowed+disallowed} holding a special name {root, ' ROOT ', default, response-wrapping, control-group, empty name, duplicate, case/padding variant} in every position next to ordinary entries x capability{none, sudo} x requests naming the ordinary entries / glob-matched names / nothing (the role's lists are judged as its read endpoint shows them; written disallowed entries count too); root parents of every lifetime shape {initial root, non-expiring child of it, ttl, period, period+explicit max, explicit max only, ttl+explicit max, ttl+period, use-limited, period above the mount max} x endpoint{create, create-orphan, role without lists, role allowing root, orphan role, period role, explicit-max role} x child policies{inherit, root, a} x lifetime stated{nothing, ttl, period, explicit max, explicit max 0, ttl+explicit, no_parent, period+explicit}; batch and use-limited parents x capability x namespaces x endpoints; "+c07Rule0)
 	defer r.Write(t)
 	w := c07Boot(t)
 	rng := kit.NewRand(seed, uint64(shard)+900)
@@ -1567,6 +1736,75 @@ func TestVerif_C07_Lattice(t *testing.T) {
 			}
 		}
 	}
+	// role lists that contain special names next to ordinary entries, in every position: whatever else a list
+	// contains, an entry of a disallowed list / a name its globs match is never handed out, and an allowed list
+	// allows what the role shows and nothing more
+	type spName struct{ name, val string }
+	specials := []spName{{"root", "root"}, {"root-variant", " ROOT "}, {"default", "default"}, {"non-assignable", "response-wrapping"},
+		{"control-group", "control-group"}, {"empty", ""}, {"duplicate", "@dup"}, {"variant", "@variant"}}
+	insert := func(base []string, sp spName, pos int) []string {
+		v := sp.val
+		switch v {
+		case "@dup":
+			v = base[0]
+		case "@variant":
+			v = " " + strings.ToUpper(base[0]) + " "
+		}
+		out := append([]string{}, base[:pos]...)
+		out = append(out, v)
+		return append(out, base[pos:]...)
+	}
+	listKinds := []string{"deny", "denyglob", "allow", "allowglob", "allow+deny"}
+	mkListRole := func(kind string, sp spName, pos int) func(string) *c07Role {
+		return func(name string) *c07Role {
+			ro := &c07Role{Name: name, Renewable: true}
+			switch kind {
+			case "deny":
+				ro.Disallowed = insert([]string{"b", "ops-x"}, sp, pos)
+			case "denyglob":
+				ro.DisallowedGlob = insert([]string{"b*", "ops-*"}, sp, pos)
+			case "allow":
+				ro.Allowed = insert([]string{"a", "c"}, sp, pos)
+			case "allowglob":
+				ro.Allowed, ro.AllowedGlob = []string{"c"}, insert([]string{"dev-*", "ops-*"}, sp, pos)
+			case "allow+deny":
+				ro.Allowed, ro.Disallowed = []string{"a", "b", "c", "ops-x"}, insert([]string{"b", "ops-x"}, sp, pos)
+			}
+			return ro
+		}
+	}
+	for _, kind := range listKinds {
+		for _, sp := range specials {
+			for pos := 0; pos <= 3; pos++ {
+				m := modes[0]
+				if pos == 3 { // last position again, in the child namespace
+					m = modes[1]
+				}
+				var reqs [][]string
+				switch kind {
+				case "deny", "denyglob", "allow+deny":
+					reqs = [][]string{{"b"}, {"ops-x"}, {"a"}, {"a", "b"}, nil, {" B "}}
+				default:
+					spv := strings.TrimSpace(sp.val)
+					if spv == "" || strings.HasPrefix(spv, "@") {
+						spv = "b"
+					}
+					reqs = [][]string{{"a"}, {"c"}, {"ops-x"}, {"dev-db"}, nil, {spv}}
+				}
+				for _, capability := range []string{"none", "sudo"} {
+					for _, rq := range reqs {
+						ep := "role-list-" + kind
+						p := pos
+						if p == 3 {
+							p = 2
+						}
+						roles[ep] = mkListRole(kind, sp, p)
+						do(capability, ep, m, true, func(q *c07Req) { q.Policies = rq })
+					}
+				}
+			}
+		}
+	}
 	// root parents of every lifetime shape x root (and non-root) children requested with every way of stating a lifetime:
 	// only the non-expiring shapes may yield a root token that never expires; a use-limited root token creates nothing
 	rootParents := append([]c07ParentSpec{{Kind: "root0"}, {Kind: "rootchild"}}, c07RootShapes...)
@@ -1643,6 +1881,13 @@ func TestVerif_C07_Lattice(t *testing.T) {
 		"expiring_root_parent_refused_non_expiring_root_child:period": 40, "expiring_root_parent_refused_non_expiring_root_child:explicit-max": 30,
 		"expiring_root_parent_refused_non_expiring_root_child:period+explicit-max": 15, "expiring_root_parent_refused_non_expiring_root_child:ttl": 20,
 		"expiring_root_child_of_parent:period": 100, "expiring_root_child_of_parent:explicit-max": 60, "non_expiring_root_child_of_parent:non-expiring": 40,
+		"refused:role-disallowed-policy:role:deny-has-root-and-ordinary-entries": 60, "refused:role-disallowed-policy:role:denyglob-has-root-and-ordinary-entries": 30,
+		"refused:role-disallowed-policy:role:deny-has-default": 30, "refused:role-disallowed-policy:role:deny-has-non-assignable": 30,
+		"refused:role-disallowed-policy:role:deny-has-empty-name": 30, "refused:role-disallowed-policy:role:deny-has-duplicate": 60,
+		"refused:role-disallowed-policy:role:denyglob-has-default": 15, "refused:role-disallowed-policy:role:denyglob-has-empty-name": 15,
+		"refused:policy-outside-role-lists:role:allow-has-root-and-ordinary-entries": 60, "refused:policy-outside-role-lists:role:allowglob-has-root-and-ordinary-entries": 10,
+		"created_through_role:deny-has-root-and-ordinary-entries": 15, "created_through_role:allowglob-has-root-and-ordinary-entries": 15,
+		"role_read_backs": 3000,
 	} {
 		r.Require(k, min)
 	}
